@@ -9,7 +9,10 @@ code real entities put around the converters (config.Config.load_complex -> attr
 allow_unknown_attributes, assertion.Assertion.construct + Policy.get_name_form, response.AuthnResponse.
 read_attribute_statement/get_identity, Server.create_authn_response/create_attribute_response,
 Saml2Client.parse_authn_request_response); the Lean model is the same: the glue must be the identity on what
-the converters return.
+the converters return.  Glue to_local cases with "groups"/"layout" distribute the wire attributes over several
+AttributeStatements, Advice assertions and (AuthnResponse object only) several assertions; the model is then
+`getIdentity` (per statement `list_to_local`, merged with dict.update: a later statement replaces a local name
+of an earlier one).
 
 Case kinds (`op`):
   to_wire    identity -> wire attributes            (from_local / acs[i].to_)
@@ -39,7 +42,9 @@ RULE = ("every (map, attribute) pair of the bundled maps in both directions and 
         "unspecified-format, nameless attributes x value lists (empty list, empty string, padded, unicode, "
         "booleans, integers, None, bare scalars) x allow_unknown_attributes x object/XML transport x "
         "{converters called directly, through Assertion.construct/AuthnResponse objects configured from a real "
-        "SPConfig, through Server.create_*_response and Saml2Client.parse_authn_request_response}; "
+        "SPConfig, through Server.create_*_response and Saml2Client.parse_authn_request_response} x container "
+        "structure on receipt (1-4 attribute statements, Advice assertions, several assertions, empty statements, "
+        "the same attribute in two statements); "
         "non-trivial = the model path is not a set-up error or a pure string-operation case")
 TRUSTED = [
     "Gen/AttrMaps.lean is regenerated from the imported saml2.attributemaps modules by harness/translate/attrmaps.py",
@@ -60,6 +65,10 @@ ASSUMPTIONS = [
     "a directory of map modules), from_local's own choice of the sending converter, statements that can be "
     "serialised, and - for the full Saml2Client path - attributes with a non-empty Name; an absent attribute "
     "statement is read as None exactly when no map of the set has the requested name format",
+    "EncryptedAttribute elements are not produced (the xmlsec1 stand-in has no text-encryption mode): "
+    "AuthnResponse.decrypt_attributes runs on statements without encrypted attributes only; a Response carries "
+    "exactly one assertion (the real client rejects any other number), several assertions are exercised on the "
+    "AuthnResponse object only; every Advice assertion carries exactly one attribute statement",
     "eduPersonTargetedID values are text that XML 1.0 carries unchanged (ava_from serialises and re-parses the "
     "NameID elements); with XML transport the same holds for every value",
 ]
@@ -303,6 +312,10 @@ def _glue_receive_objects(case, attrs):
     conf = _light_config(case, case["allow"])
     resp = AuthnResponse(SecurityContext(CryptoBackendXmlSec1(S.xmlsec_standin.BINARY)), conf.attribute_converters,
                          conf.entityid, allow_unknown_attributes=conf.allow_unknown_attributes)
+    if case.get("groups") is not None:
+        resp.assertions = _containers(case, attrs)
+        resp.assertion = resp.assertions[0]
+        return resp.get_identity()
     stmt = saml.AttributeStatement(attribute=attrs)
     assertion = saml.Assertion(attribute_statement=[stmt])
     resp.assertion = assertion
@@ -310,6 +323,37 @@ def _glue_receive_objects(case, attrs):
     direct = resp.read_attribute_statement(stmt)
     ident = resp.get_identity()
     return ident if ident == direct else {"__glue__": ["read_attribute_statement and get_identity differ"]}
+
+
+def _containers(case, attrs, like=None):
+    """The wire attributes distributed over containers: case["groups"] are the attribute statements (lists of
+    indices into the attribute list) in the order get_identity reads them, case["layout"] says where they sit:
+    per assertion the statements carried by Advice assertions (one each) and the assertion's own statements.
+    `like`: an assertion whose issuer/version/instant the new assertions copy (full-client path)."""
+    from saml2 import saml
+
+    def stmt(g):
+        return saml.AttributeStatement(attribute=[attrs[i] for i in case["groups"][g]])
+
+    def shell(k, **kw):
+        if like is None:
+            return saml.Assertion(**kw)
+        return saml.Assertion(id="id-c17-adv-%d" % k, version=like.version, issue_instant=like.issue_instant,
+                              issuer=saml.Issuer(text=like.issuer.text), **kw)
+
+    out = []
+    k = 0
+    for lay in case["layout"]:
+        a = shell(k, attribute_statement=[stmt(g) for g in lay["own"]])
+        k += 1
+        if lay["advice"]:
+            advs = []
+            for g in lay["advice"]:
+                advs.append(shell(k, attribute_statement=[stmt(g)]))
+                k += 1
+            a.advice = saml.Advice(assertion=advs)
+        out.append(a)
+    return out
 
 
 def _glue_receive_entities(case, resp_obj):
@@ -336,6 +380,16 @@ def _template_response(attrs):
         resp = idp.create_authn_response({}, "id-c17", S.SP_ACS_POST, S.SP_ID, name_id=_name_id(), authn=AUTHN,
                                          sign_response=False, sign_assertion=False)
     resp.assertion.attribute_statement = [saml.AttributeStatement(attribute=attrs)]
+    return resp
+
+
+def _template_response_multi(case, attrs):
+    """The same with the attributes distributed over several statements and Advice assertions of the one
+    assertion a Response may carry."""
+    resp = _template_response([])
+    (c,) = _containers(case, attrs, like=resp.assertion)
+    resp.assertion.attribute_statement = c.attribute_statement
+    resp.assertion.advice = c.advice
     return resp
 
 
@@ -526,12 +580,17 @@ def _run_glue(case):
         return {"r": "ok", "ava": _canon_local(d)}
     if op == "to_local":
         attrs = [_mk_attr(j) for j in case["attrs"]]
+        if case.get("groups") is not None and not all(0 <= j < len(attrs) for g in case["groups"] for j in g):
+            raise ValueError("statement refers to an attribute the case does not have")
+        if glue == "objects":
+            if case.get("xml"):
+                attrs = _via_xml(attrs)
+            resp = None
+        else:
+            resp = _template_response_multi(case, attrs) if case.get("groups") is not None else _template_response(attrs)
         try:
-            if glue == "objects":
-                d = _glue_receive_objects(case, _via_xml(attrs) if case.get("xml") else attrs)
-            else:
-                d = _glue_receive_entities(case, _template_response(attrs))
-        except Exception:
+            d = _glue_receive_objects(case, attrs) if glue == "objects" else _glue_receive_entities(case, resp)
+        except Exception:  # what the receiving entity raises
             return {"r": "raised"}
         return {"r": "ok", "ava": _canon_local(d)}
     raise ValueError(op)
@@ -1107,9 +1166,47 @@ def glue_variant(rng, case, entities_ok=True):
     return c
 
 
+def multi_statement_variant(rng, g):
+    """A glue to_local case with its wire attributes distributed over 1-3 attribute statements, over an
+    assertion and its Advice assertions and (AuthnResponse object only: a Response must carry exactly one
+    assertion) over several assertions.  Sometimes the same attribute is put into two statements."""
+    if g is None or g["op"] != "to_local" or not g["attrs"]:
+        return None
+    c = json.loads(json.dumps(g))
+    attrs = c["attrs"]
+    for _ in range(rng.choice([0, 0, 1, 1, 2])):  # the same name again, other values, to land in another statement
+        a = json.loads(json.dumps(rng.choice(attrs)))
+        a["values"] = [gen_wire_value(rng, True) for _ in range(rng.randint(0, 2))]
+        a["values"] = [v for v in a["values"] if not v["ext"]]
+        attrs.append(a)
+    idx = list(range(len(attrs)))
+    rng.shuffle(idx)
+    n = min(len(idx), rng.choice([1, 2, 2, 3, 3]))
+    cuts = sorted(rng.sample(range(1, len(idx)), n - 1)) if n > 1 else []
+    groups = [idx[i:j] for i, j in zip([0] + cuts, cuts + [len(idx)])]
+    if n < 3 and rng.random() < 0.15:
+        groups.insert(rng.randrange(len(groups) + 1), [])  # an empty statement
+    n = len(groups)
+    n_ass = 1 if c["glue"] == "entities" else rng.choice([1, 1, 2])
+    n_ass = min(n_ass, n)
+    bounds = sorted(rng.sample(range(1, n), n_ass - 1)) if n_ass > 1 else []
+    layout = []
+    for lo, hi in zip([0] + bounds, bounds + [n]):
+        gs = list(range(lo, hi))
+        k = rng.choice([0, 0, 1, len(gs) - 1]) if len(gs) > 1 else rng.choice([0, 0, 1])
+        k = max(0, min(k, len(gs)))
+        layout.append({"advice": gs[:k], "own": gs[k:]})
+    c["groups"], c["layout"] = groups, layout
+    return c
+
+
 def gen_cases(rng, tier):
     for c in _gen_cases(rng, tier):
         yield _xml_safe_eptid(c)
+        if c.get("glue") and c["op"] == "to_local" and rng.random() < 0.6:
+            m = multi_statement_variant(rng, c)
+            if m is not None:
+                yield m
 
 
 def _gen_cases(rng, tier):
@@ -1214,6 +1311,8 @@ def shrink(case):
             for i in range(len(case[fld])):
                 c = dict(case)
                 c[fld] = case[fld][:i] + case[fld][i + 1:]
+                if fld == "attrs" and case.get("groups") is not None:  # keep the statements' indices valid
+                    c["groups"] = [[j - (j > i) for j in g if j != i] for g in case["groups"]]
                 yield c
     if "custom" in case.get("maps", {}) and len(case["maps"]["custom"]) > 1 and case.get("send") is None:
         for i in range(len(case["maps"]["custom"])):
